@@ -3,7 +3,7 @@
 # under seeded/<Cxx>-<k>/ (patch.diff, demo.py, meta.json).  The scratch worktree is removed afterwards.
 set -u
 ID=$1; K=$2
-SRC=/tmp/seed_out/$ID
+SRC=${SEED_SRC:-/tmp/seed_out}/$ID
 W=$(mktemp -d /tmp/confirm.XXXXXX)
 git -C /repo worktree add -q --detach "$W/wt" HEAD || exit 2
 cleanup() { git -C /repo worktree remove --force "$W/wt" 2>/dev/null; rm -rf "$W"; }
